@@ -82,22 +82,38 @@ def r1(ctx):
         rep.evaluations += len(dp)
         for p in dp:
             evs = [e for e in map_events(p)]
-            rem = [e for e in evs if e.name == "remove_if"]
-            if len(evs) != 1 or len(rem) != 1 or rem[0].extra["key"] != P("key"):
-                rep.bad("delete:shape", "cannot evaluate: delete is not a single remove_if on the request key (map events: %s)" % [e.name for e in evs], d.loc())
+            if not evs or any(e.extra.get("key") not in (P("key"), None) for e in evs):
+                rep.bad("delete:shape", "cannot evaluate: delete performs no map operation on the request key / touches another key (map events: %s)" % [e.name for e in evs], d.loc())
                 continue
-            e = rem[0]
-            present, removed = e.extra["present"], e.extra["removed"]
-            stored = e.extra.get("stored")
+            # presence of the key, the stored record and whether it was removed — whatever DashMap primitive is used
+            # (remove_if with a predicate, the entry API, a guard): atomicity of the combination is C03.R1's subject
+            first = evs[0]
+            rms = map_removals(p)
+            removed = bool(rms)
+            if first.name == "remove_if":
+                present = first.extra["present"]
+            else:
+                pc_ = storefacts.presence_case(p)
+                present = True if pc_ == "present" else False if pc_ == "absent" else None
+            if present is None and first.name == "remove":
+                # unconditional remove: presence is learnt from its result
+                dres = p.state.discr.get(first.extra.get("result"))
+                present = True if dres == 1 else False if dres == 0 else None
+            if len(rms) > 1:
+                rep.bad("delete:shape", "cannot evaluate: delete removes more than once on a path (map events: %s)" % [e.name for e in evs], d.loc())
+                continue
             eq = None
-            if present:
-                sc = F(stored, "header", "cas")
-                for c, truth, _s, _at in p.state.pc:
-                    if isinstance(c, tuple) and c and c[0] == "cmp" and c[1] in ("Eq", "Ne") and {c[2], c[3]} == {sc, hc}:
+            for c, truth, _s, _at in p.state.pc:
+                if isinstance(c, tuple) and c and c[0] == "cmp" and c[1] in ("Eq", "Ne") and hc in (c[2], c[3]):
+                    other = c[3] if c[2] == hc else c[2]
+                    if isinstance(other, tuple) and other[0] == "field" and other[2] == "cas" and lookup_of(other) is not None:
                         eq = truth if c[1] == "Eq" else not truth
+            if present is None:
+                rep.bad("delete:shape", "cannot evaluate: a path of delete does not establish whether the key is present (map events: %s)" % [e.name for e in evs], d.loc())
+                continue
             if not present:
                 k = "delete[%s,absent]" % hcase
-                rep.check(err_name(p.ret) == "NotFound", k, "absent -> NotFound", "delete of an absent key returns %s" % short(p.ret, 80), d.loc())
+                rep.check(err_name(p.ret) == "NotFound" and not removed, k, "absent -> NotFound", "delete of an absent key returns %s" % short(p.ret, 80), d.loc())
                 continue
             if hcase == "cas=0":
                 k = "delete[cas=0,present]"
